@@ -4,6 +4,8 @@ use vstd::prelude::*;
 verus! {
 //@nopub
 //@include ioerr.rs
+//@include error.rs
+//@include le.rs
 //@include dev.rs
 //@include page_r_body.rs
 } // verus!
